@@ -54,6 +54,16 @@ class Hist(ig.Hist):
             if not bad and self.rng.random() < 0.3:
                 return NONE
             return self.k1_value(bad)
+        if bad and t[0] in ("list", "dict", "set") and self.rng.random() < 0.3:
+            # a FALSY value of the wrong kind: empty container of another kind, 0, ''
+            # ({} for a List/Set attribute and '' are left out: dict-to-keyword casting of
+            # {} onto typing.List raises in the library but not in the model, and the
+            # model does not iterate strings)
+            other = {"list": [("set", [])], "dict": [("list", []), ("set", [])], "set": [("list", [])]}[t[0]]
+            r = self.rng.random()
+            if r < 0.7:
+                return self.alloc(self.rng.choice(other))
+            return self.rng.choice([V(0), ("bool", False)])
         return super().value_for(a, bad)
 
     def k1_dict(self, bad):
@@ -221,6 +231,9 @@ def route_histogram(chk, cases, bad, extra):
     extra["correspondence"]["outcomes_by_route_sampled"] = routes
     extra["correspondence"]["outcome_code_histogram_sampled"] = errs
     extra["correspondence"]["tables_with_ill_typed_callbacks_or_factories"] = evil
+    import c03_probe
+    c03_probe.run(chk, extra)
+    c03_probe.run_bounded_probe(chk, extra)
 
 
 def run(tier, assumptions):
@@ -270,7 +283,15 @@ def load_replay(path):
 
 
 def replay(path):
+    import json
     import inst_common as ic
+    raw = json.load(open(path))
+    if raw.get("kind") == "probe":
+        import c03_probe
+        return c03_probe.replay(raw["scenario"])
+    if raw.get("kind") == "probe-bounded":
+        import c03_probe
+        return c03_probe.replay_bounded(raw["scenario"])
     case = load_replay(path)
     bad, logs = ic.evaluate("C03", [case], tag="r")
     failing = bool(bad and bad[0][1] & (8 | 1))
